@@ -30,6 +30,15 @@
     `nameaddr_q(_le)`, `q_any_text_cases`: Q ≤ 1000 always; Q is the thousandths value of the last accepted `q`
     parameter of the text, every `q` text of another shape (more than three decimals, above 1, non-digits, 2^64
     overflow) leaves Q untouched and sets the parameter-error indication; never a wrapped or truncated number.
+  * **the range half at run level** (`Sipsp.Proofs.AuditFixB`; the review noted that the `*_value_exact` theorems give
+    "number = value of the digits" but, the model's numbers being unbounded naturals, not the range): `uint_in_range`,
+    `cseq_in_range`, `*_exact_in_range`: after OK, Expires ≤ 2^32-1; CSeq ≤ 2^32-1 with at most 10 digits;
+    Content-Length ≤ 2^24 with at most 9 digits — for new and legitimately suspended objects (`*_suspended_legit`) and
+    after EVERY chunk schedule (`*_schedule_exact`); `uint_big_rejected`, `clen_big_rejected`, `cseq_big_rejected`
+    (`…_resumed`): a digit string whose value exceeds 2^32-1 is rejected with number-too-big at one of its digits,
+    whatever follows, also when the call is resumed inside the number; `uint_canonical`, `clen_canonical`: on
+    "[blanks] digits CR LF non-continuation" the verdict is OK with exactly the value iff in range, number-too-big
+    otherwise. The reply status at run level is C08 `status_value`.
   NOT proved: completeness at run level (that EVERY expires / q parameter of the text is among the recorded spans) is
   the grammar-level C09 theorem.
 -/
@@ -38,6 +47,7 @@ import Sipsp.Proofs.NumRun
 import Sipsp.Model.Msg
 import Sipsp.Proofs.UriLink
 import Sipsp.Proofs.NaNumRun
+import Sipsp.Proofs.AuditFixB
 
 namespace Sipsp.C10
 open Sipsp
@@ -224,5 +234,72 @@ theorem contact_q_run : type_of% @Sipsp.nr_contact_q := @Sipsp.nr_contact_q
     parameter of `L` with an accepted text (0 if none), `ParamErr` is set when some `q` parameter of `L` has a rejected
     text, and is not set otherwise. -/
 theorem contact_q_flag_run : type_of% @Sipsp.nr_contact_q_flag := @Sipsp.nr_contact_q_flag
+
+/-! ### the 32-bit range at run level; rejection of larger numbers; suspended objects (proved in `Sipsp.Proofs.AuditFixB`) -/
+
+/-- … in the form asked for: OK ⇒ `uiVal ≤ 2^32-1` -/
+theorem uint_in_range : type_of% @Sipsp.afb_uint_ok_le := @Sipsp.afb_uint_ok_le
+
+/-- … in the form asked for: OK ⇒ `cseqNo ≤ 2^32-1` and `cseq.len ≤ 10` -/
+theorem cseq_in_range : type_of% @Sipsp.afb_cseq_ok_le := @Sipsp.afb_cseq_ok_le
+
+/-- **C10 for ParseUIntVal (= ParseExpiresVal) at run level**: after OK the reported field is a non-empty digit string
+    of the buffer, the reported number is exactly its decimal value, and it does not exceed 2^32-1 -/
+theorem uint_exact_in_range : type_of% @Sipsp.afb_uint_exact_in_range := @Sipsp.afb_uint_exact_in_range
+
+/-- **C10 for ParseCLenVal at run level**: exact, at most 9 digits, at most 2^24 -/
+theorem clen_exact_in_range : type_of% @Sipsp.afb_clen_exact_in_range := @Sipsp.afb_clen_exact_in_range
+
+/-- **C10 for ParseCSeqVal at run level**: after OK the reported number field is a non-empty digit string of the
+    buffer of at most 10 digits, the reported number is exactly its decimal value, and it does not exceed 2^32-1 -/
+theorem cseq_exact_in_range : type_of% @Sipsp.afb_cseq_exact_in_range := @Sipsp.afb_cseq_exact_in_range
+
+/-- **ParseUIntVal under every chunk schedule from a new object**: if the chain of resumed calls ends with OK, the
+    reported field is a digit string of the buffer of the call that finished, the number is its exact value, ≤ 2^32-1 -/
+theorem uint_schedule_exact : type_of% @Sipsp.afb_uint_schedule := @Sipsp.afb_uint_schedule
+
+theorem clen_schedule_exact : type_of% @Sipsp.afb_clen_schedule := @Sipsp.afb_clen_schedule
+
+theorem cseq_schedule_exact : type_of% @Sipsp.afb_cseq_schedule := @Sipsp.afb_cseq_schedule
+
+/-- **ParseUIntVal, new object, optional leading spaces / tabs, then a digit string of value above 2^32-1**: rejected
+    with NumTooBig at one of the digits, whatever follows them -/
+theorem uint_big_rejected : type_of% @Sipsp.afb_uint_big_rejected_ws := @Sipsp.afb_uint_big_rejected_ws
+
+/-- ParseCLenVal passes the verdict on -/
+theorem clen_big_rejected : type_of% @Sipsp.afb_clen_big_rejected_ws := @Sipsp.afb_clen_big_rejected_ws
+
+/-- **ParseCSeqVal, new object, optional leading spaces / tabs, then a digit string of value above 2^32-1**: rejected
+    with NumTooBig at one of the digits, whatever follows them (method or not) -/
+theorem cseq_big_rejected : type_of% @Sipsp.afb_cseq_big_rejected_ws := @Sipsp.afb_cseq_big_rejected_ws
+
+/-- **ParseUIntVal resumed (or called) inside a number**: the object is in the middle of a digit string that began at
+    `st.soffs` (`ClNum`), the bytes `[i, e)` are further digits, and the value of the whole string `[st.soffs, e)`
+    exceeds 2^32-1: the call is rejected with NumTooBig at one of these digits, whatever follows. -/
+theorem uint_big_rejected_resumed : type_of% @Sipsp.afb_uint_big_resumed := @Sipsp.afb_uint_big_resumed
+
+/-- **ParseCSeqVal resumed (or called) inside the number**: see `afb_uint_big_resumed` -/
+theorem cseq_big_rejected_resumed : type_of% @Sipsp.afb_cseq_big_resumed := @Sipsp.afb_cseq_big_resumed
+
+/-- **ParseUIntVal on the canonical input, complete**: a new object; optional spaces / tabs `[o, i)`; a non-empty digit
+    string `[i, e)`; CR LF and a byte that does not continue the line.  If the value fits 32 bits the call returns OK
+    just after the CR LF with exactly that value and the field `[i, e)`; otherwise NumTooBig at one of the digits. -/
+theorem uint_canonical : type_of% @Sipsp.afb_uint_canonical := @Sipsp.afb_uint_canonical
+
+/-- **ParseCLenVal on the canonical input, complete** (buffer within the 65,535-byte limit): OK with the exact value
+    and field iff the value is at most 2^24 and written with at most 9 digits; NumTooBig otherwise -/
+theorem clen_canonical : type_of% @Sipsp.afb_clen_canonical := @Sipsp.afb_clen_canonical
+
+/-- **ParseUIntVal suspended**: after MoreBytes the returned object satisfies `ClNum` at the returned offset — on the
+    buffer that was parsed and on every extension of it — the offset lies inside the buffer and the object is not
+    finished: the hypotheses of `uint_value_exact` / `clen_value_exact` for the resumed call. -/
+theorem uint_suspended_legit : type_of% @Sipsp.afb_uint_more_inv := @Sipsp.afb_uint_more_inv
+
+theorem clen_suspended_legit : type_of% @Sipsp.afb_clen_more_inv := @Sipsp.afb_clen_more_inv
+
+/-- **ParseCSeqVal suspended**: after MoreBytes the returned object satisfies `CsNum` at the returned offset (on the
+    parsed buffer and on every extension), the offset lies inside the buffer and the object is not finished: the
+    hypotheses of `cseq_value_exact` for the resumed call. -/
+theorem cseq_suspended_legit : type_of% @Sipsp.afb_cseq_more_inv := @Sipsp.afb_cseq_more_inv
 
 end Sipsp.C10
